@@ -18,7 +18,8 @@ RULE = ("product of PDO kind/number {RPDO,TPDO} x {1,4,5,512} x optional sub-ent
         "only} x prior device state {blank+invalid, valid with 1 other mapping, valid with 8 mappings} x COB-ID {0x181, 0x7FF, "
         "0x800, 0x1FFFFFFF, 1} x enabled x rtr_allowed x transmission type {0,1,240,252,253,254,255} x timers {absent, 0, max} "
         "x mapping {sequences of length <= 2 over 3 objects, 64-bit object, 8 x 8 bits, empty}; source: live device, "
-        "dictionary values (DCF), dictionary defaults; history: save, modify, save again. state = (configuration, device "
+        "dictionary values (DCF), dictionary defaults; history: save, modify, save again; node level (node.pdo/rpdo/tpdo "
+        ".save over 8 maps): every map x every mapping incl. empty x enabled/disabled over three prior-state assignments. state = (configuration, device "
         "state, write step); non-trivial = cases with a valid prior device state or a second save")
 ASSUMPTIONS = [
     "the strict device refuses: mapping/communication writes while valid, entry writes while count != 0, count beyond the written entries or > 64 bits, COB-ID change while valid",
@@ -93,7 +94,8 @@ def cases(tier, seed):
     for subs in ("all", "gap"):
         out.append({"part": "history", "subs": subs})
     for subs in SUBSETS:
-        out.append({"part": "node-level", "subs": subs})
+        for rm in range(0, len(MAPPINGS), 1 if tier == "thorough" else 3):
+            out.append({"part": "node-level", "subs": subs, "rots": [[rm, 0], [rm, 1]], "loadcfg": rm == 0})
     k = seed % len(out)
     return out[k:] + out[:k]
 
@@ -348,13 +350,14 @@ def run_node_level(case, st):
     import canopen
     subs = SUBSETS[case["subs"]]
     od = mkod(subs)
-    for which in ("pdo", "rpdo", "tpdo"):
-        for priors in (("blank",), ("valid1", "blank", "valid8")):
+    rots = case["rots"]
+    for which, priors, (rotm, rote) in itertools.product(("pdo", "rpdo", "tpdo"), (("blank",), ("valid1", "blank", "valid8"), ("valid8", "valid1")), rots):
+        if True:
             dev = MultiDevice(subs, canopen.SdoAbortedError, priors)
             net, n = mknode(od, dev)
             st.evaluations += 1
             st.nontrivial_n += 1
-            rc = dict(case, which=which, priors=list(priors))
+            rc = dict(case, which=which, priors=list(priors), rots=[[rotm, rote]])
             coll = getattr(n, which)
             try:
                 coll.read()
@@ -362,9 +365,9 @@ def run_node_level(case, st):
                 want = {}
                 for k, m in enumerate(maps):
                     com = m.com_record.od.index
-                    m.cob_id, m.enabled, m.rtr_allowed, m.trans_type = 0x200 + k * 3, bool(k % 2), bool(k % 3), (1, 254, 255)[k % 3]
+                    m.cob_id, m.enabled, m.rtr_allowed, m.trans_type = 0x200 + k * 3, bool((k + rote) % 2), bool(k % 3), (1, 254, 255)[k % 3]
                     m.clear()
-                    mp = MAPPINGS[1 + k % 8]
+                    mp = MAPPINGS[(k + rotm) % len(MAPPINGS)]     # includes the empty mapping on every map for some rotation
                     for (i, s, l) in mp:
                         m.add_variable(i, s, l)
                     want[com] = (m.cob_id, m.enabled, m.rtr_allowed, m.trans_type, [tuple(x) for x in mp])
@@ -393,6 +396,8 @@ def run_node_level(case, st):
                 st.violation(f"C09:node-level:{which}:readback-differs", rc, "same configuration for every map", diff)
             else:
                 st.outcome("node-level ok")
+    if not case.get("loadcfg"):
+        return
     # RemoteNode.load_configuration(): PDO configuration from the dictionary is applied through read(from_od)+save()
     vals = {}
     for k, com in enumerate(COMS):
